@@ -1,7 +1,4 @@
 import Ebu.Spec.Bus
-import Ebu.Proofs.BusRefine
-import Ebu.Proofs.BusFrame
-import Ebu.Proofs.BusPersist
 import Ebu.Proofs.BusObs
 /-!
 C20 — Observability callbacks are balanced, nested and truthful
